@@ -3,6 +3,7 @@ C02 — Stores conserve items: every get returns one distinct, previously put it
 retrieval is backed by its own item.
 -/
 import FsVerif.Proofs.PosExtra
+import FsVerif.Proofs.BufExtra
 namespace FsVerif.Props.C02
 open FsVerif PosStore
 
@@ -42,5 +43,33 @@ example : ∃ s : PosStore, Reachable s ∧ s.getRes.length = 2 ∧ s.items.leng
   ⟨run (init { cap := some 2 })
      [.reservePut 0 0, .reservePut 0 0, .put 0 0 ⟨7, 0⟩, .put 0 1 ⟨8, 0⟩, .reserveGet 1 0 .always, .reserveGet 2 0 .always],
    ⟨_, _, rfl⟩, by decide⟩
+
+
+/-! ### BufferStore -/
+
+theorem buf_conservation {s : BufStore} (h : BufStore.ReachD s) :
+    (s.gotLog ++ (s.transit ++ s.ready).map (·.item)).Perm s.putLog :=
+  (BufStore.reachD_binv h).cons
+
+/-- every granted retrieval owns its own ready entry: the reserved entries are exactly the first
+    (FIFO) / top (LIFO) `k` ready entries, one per granted retrieval, pairwise different -/
+theorem buf_binding {s : BufStore} (h : BufStore.ReachD s) :
+    s.resEv.Perm s.getRes ∧ s.resItems.length = s.getRes.length ∧ s.resItems.Nodup ∧
+    (∀ e ∈ s.resItems, e ∈ s.ready) ∧ s.resItems.Perm (BufStore.resPart s) := by
+  have hi := BufStore.reachD_binv h
+  refine ⟨hi.bindEv, by have := hi.bindLen; have := hi.bindEv.length_eq; omega, ?_, BufStore.resItems_sub hi.toPre, hi.bindItems⟩
+  refine hi.bindItems.nodup_iff.mpr ?_
+  have hnd := BufStore.ready_nodup hi.dist
+  unfold BufStore.resPart
+  split
+  · exact hnd.sublist (List.take_sublist _ _)
+  · exact hnd.sublist (List.drop_sublist _ _)
+
+theorem buf_get_honoured {s : BufStore} (h : BufStore.ReachD s) {t : Tok} (ht : t ∈ s.getRes) :
+    ∃ e ∈ s.ready, (s.step (.get t.proc t.id)).2 = .item e.item := by
+  have hi := BufStore.clearFired_core (BufStore.reachD_binv h).toCore
+  unfold BufStore.step
+  obtain ⟨e, h1, _, h3⟩ := BufStore.get_accept hi.toPre ⟨t, ht, rfl, rfl⟩
+  exact ⟨e, h1, h3⟩
 
 end FsVerif.Props.C02
